@@ -255,6 +255,13 @@ def main(argv=None):
         rc = ctx.finish()
     except MachineryError as e:
         print(f'MACHINERY-FAILURE property={prop}: {e}', file=sys.stderr)
+        if ctx.violations:
+            # violations were already established before the machinery broke (typically because the
+            # broken implementation also upset a self-test of the driver): report them
+            try:
+                return ctx.finish() or 2
+            except Exception:  # noqa: BLE001
+                pass
         shutil.rmtree(ctx.tmp, ignore_errors=True)
         return 2
     except Exception:  # noqa: BLE001
